@@ -1063,8 +1063,8 @@ Definition do_io (g : N) (t : Z) (c : cur) (k : iokind) (sid : stateid) (openerr
 Definition do_io_ret (g : N) (t : Z) (st : N) s : state * reply :=
   match find_by (fun p => fst p =? g) (st_pending s) with
   | Some (_, PIo other client cloned) =>
-    let s := w_pending s (del_by (fun p => fst p =? g) (st_pending s)) in
     let s := enter t s in
+    let s := w_pending s (del_by (fun p => fst p =? g) (st_pending s)) in
     let s := oofs_release other cloned s in
     (release client s, RpOp (ResStatus st))
   | _ => (s, RpOp (ResStatus ERR_RESOURCE))
